@@ -96,7 +96,7 @@ struct WL {
         WL* w = self;
         if (!w || !w->dd) return;
         gsim::probe("dd.destructor_reentered");
-        if (mode == 1) (void)w->dd->size();
+        if (mode == 1) gsim::hash_mix((uint64_t)w->dd->size());
         else if (mode == 2) (void)w->dd->destroyObjects();
         else if (mode == 3) {
             bool ok;
@@ -134,7 +134,7 @@ struct WL {
             thr = S->throwing;
         }
         WL* w = self;
-        if (mode == 2) (void)w->dd->size();
+        if (mode == 2) gsim::hash_mix((uint64_t)w->dd->size());
         else if (mode == 3) {
             bool ok;
             {
@@ -172,16 +172,16 @@ struct WL {
                 case OP_DROP: drop_one(slots, op.a); break;
                 case OP_DESTROY: {
                     Scope sc;
-                    (void)dd->destroyObjects();
+                    gsim::hash_mix((uint64_t)dd->destroyObjects());
                     break;
                 }
                 case OP_DESTROY_DELAY: {
                     static const int ms[] = {0, 3, 10, 120};
                     Scope sc;
-                    (void)dd->destroyObjects(std::chrono::milliseconds(ms[op.a & 3]));
+                    gsim::hash_mix((uint64_t)dd->destroyObjects(std::chrono::milliseconds(ms[op.a & 3])));
                     break;
                 }
-                case OP_SIZE: (void)dd->size(); break;
+                case OP_SIZE: gsim::hash_mix((uint64_t)dd->size()); break;
                 default: break;
             }
             if (gsim::held_exclusive())
